@@ -65,6 +65,9 @@ type pool struct {
 	S1, S2, B *jschema.Schema
 	// C extends @base and is added to S3 together with B; alone, C does not know @base
 	C, S3 *jschema.Schema
+	// schemas without an example value (empty text, blanks, a comment only) and schemas whose LOAD fails
+	// half-way (unknown rule, duplicate key): what a failed load leaves behind must not reach the next one
+	EM, EB, EC, LR, LD *jschema.Schema
 }
 
 const brokenText = "{\n  \"a\": 1,\n  \"b\": tru\n}"
@@ -110,6 +113,11 @@ func newPool() *pool {
 	p.S2 = jschema.New("s2", "{ // {allOf: [\"@base\", \"@right\"]}\n  \"own\": true // {optional: true}\n}")
 	p.S2.AddType("@base", p.B)
 	p.S2.AddType("@right", jschema.New("@right", "{\n  \"size\": 1\n}"))
+	p.EM = jschema.New("empty", "")
+	p.EB = jschema.New("blank", " \n\t ")
+	p.EC = jschema.New("comment", "# nothing but a comment\n")
+	p.LR = jschema.New("badrule", "{\n  \"id\": 1, // {mni: 0}\n  \"name\": \"Tom\"\n}")
+	p.LD = jschema.New("dupkey", "{\n  \"id\": 1,\n  \"name\": \"Tom\",\n  \"id\": 2\n}")
 	p.C = jschema.New("@child", childText)
 	p.S3 = jschema.New("s3", "{\n  \"c\": @child\n}")
 	p.S3.AddType("@child", p.C)
@@ -360,6 +368,41 @@ func heirAlphabet() []opT {
 	}
 }
 
+// emptyAlphabet: loads that fail half-way next to first uses of schemas that have no example at all.
+func emptyAlphabet() []opT {
+	type get func(p *pool) *jschema.Schema
+	check := func(name string, g get) opT {
+		return opT{name + ".Check", func(p *pool) (string, *held) { return errStr(g(p).Check()), nil }}
+	}
+	example := func(name string, g get) opT {
+		return opT{name + ".Example", func(p *pool) (string, *held) { x, err := g(p).Example(); return string(x) + " " + errStr(err), nil }}
+	}
+	ast := func(name string, g get) opT {
+		return opT{name + ".GetAST", func(p *pool) (string, *held) {
+			a, err := g(p).GetAST()
+			j, _ := stdjson.Marshal(a)
+			return string(j) + " " + errStr(err), nil
+		}}
+	}
+	val := func(name string, g get) opT {
+		return opT{name + `.Validate({"id":1,"name":"Tom"})`, func(p *pool) (string, *held) {
+			return errStr(g(p).Validate(json.New("d", `{"id":1,"name":"Tom"}`))), nil
+		}}
+	}
+	em := func(p *pool) *jschema.Schema { return p.EM }
+	eb := func(p *pool) *jschema.Schema { return p.EB }
+	ec := func(p *pool) *jschema.Schema { return p.EC }
+	lr := func(p *pool) *jschema.Schema { return p.LR }
+	ld := func(p *pool) *jschema.Schema { return p.LD }
+	l := func(p *pool) *jschema.Schema { return p.L }
+	pp := func(p *pool) *jschema.Schema { return p.P }
+	return []opT{
+		check("LR", lr), check("LD", ld), check("L", l), example("LR", lr), check("P", pp),
+		check("EM", em), example("EM", em), ast("EM", em), val("EM", em),
+		example("EB", eb), val("EB", eb), example("EC", ec), ast("EC", ec),
+	}
+}
+
 // runHistory executes the history on a fresh pool; returns the first deviation.
 func runHistory(ops []opT, fresh []string, hist []int) string {
 	p := newPool()
@@ -417,6 +460,8 @@ func histories(c *ev.Ctx) {
 	historiesOver(c, sharedAlphabet(), depth+1, "shared_types_")
 	// a type that extends another one, used alone (failing) and inside a schema that knows its base
 	historiesOver(c, heirAlphabet(), depth+1, "heir_types_")
+	// schemas without an example next to loads that fail half-way
+	historiesOver(c, emptyAlphabet(), depth+1, "empty_schemas_")
 }
 
 func historiesOver(c *ev.Ctx, ops []opT, depth int, tag string) {
@@ -787,7 +832,7 @@ func replay(raw stdjson.RawMessage) (bool, string) {
 		return d != "", d
 	}
 	if cs.Kind == "history" {
-		ops := append(append(alphabet(), sharedAlphabet()...), heirAlphabet()...)
+		ops := append(append(append(alphabet(), sharedAlphabet()...), heirAlphabet()...), emptyAlphabet()...)
 		fresh := make([]string, len(ops))
 		for i := range ops {
 			shim.RunEnv(nil, func() { fresh[i], _ = ops[i].run(newPool()) })
